@@ -54,6 +54,7 @@ type Result struct {
 	Trace      []string        `json:"trace"`
 	Checks     int             `json:"checks"`
 	Crash      string          `json:"crash,omitempty"`
+	Cover      []string        `json:"cover"`
 }
 
 type replayFile struct {
@@ -328,6 +329,7 @@ type agg struct {
 	firstSeed  uint64
 	lastSeed   uint64
 	crashes    int
+	cover      map[string]bool
 }
 
 func (a *agg) add(r Result) {
@@ -343,6 +345,9 @@ func (a *agg) add(r Result) {
 	}
 	if r.SchedKey != "" {
 		a.scheds[r.SchedKey] = true
+	}
+	for _, c := range r.Cover {
+		a.cover[c] = true
 	}
 	for k, v := range r.Faults {
 		a.faults[k] += v
@@ -438,7 +443,7 @@ func main() {
 	}
 	known := loadKnown()
 	first := baseSeed * 1000003
-	a := &agg{keys: map[string]bool{}, scheds: map[string]bool{}, faults: map[string]int{}, probes: map[string]int{}, classes: map[string]int{}, viol: map[string][]Result{}, firstSeed: first}
+	a := &agg{keys: map[string]bool{}, scheds: map[string]bool{}, faults: map[string]int{}, probes: map[string]int{}, classes: map[string]int{}, viol: map[string][]Result{}, firstSeed: first, cover: map[string]bool{}}
 
 	type chunk struct {
 		from  uint64
@@ -989,6 +994,7 @@ func writeEvidence(prop, tier string, seed uint64, pc propCfg, tc tierCfg, a *ag
 			"new_violation_signatures": newViol,
 			"child_process_crashes":  a.crashes,
 			"race_detector":          tc.Race,
+			"coverage_points_distinct": len(a.cover),
 			"exhaustive":             false,
 		},
 	}
